@@ -100,6 +100,7 @@ CATALOGUE = {
   (S, None, 'cmaqfiles/_ioapi.py', "        outf.VGLVLS = vglvls.view(np.ndarray).astype('f')\n        outf.NLAYS = len(outf.VGLVLS) - 1\n        outf.updatemeta()\n        return outf", "        outf.VGLVLS = vglvls.view(np.ndarray).astype('f')\n        return outf"),
  ],
  'C11': [
+  (F, 'R-HMSENC', 'cmaqfiles/_ioapi.py', "                outf.TSTEP = _timedelta2tstep(dt[0])", "                outf.TSTEP = int((datetime.datetime(1900, 1, 1, 0) + dt[0]).strftime('%H%M%S'))"),
   (F, 'R-XYSYM', 'cmaqfiles/_ioapi.py', "nrow = len(self.dimensions['ROW'])", "nrow = len(self.dimensions['COL'])"),
   (F, 'R-XYSYM', 'cmaqfiles/_ioapi.py', "outf.YORIG += np.arange(nrow)[kwds['ROW']].take(0) * outf.YCELL", "outf.YORIG += np.arange(nrow)[kwds['ROW']].take(0) * outf.XCELL"),
   (F, 'R-ORIGINIDX', 'cmaqfiles/_ioapi.py', "ncol = len(self.dimensions['COL'])", "ncol = len(outf.dimensions['COL'])"),
@@ -119,6 +120,7 @@ CATALOGUE = {
   (S, None, 'core/_files.py', "'seconds': yeardays * 24 * 3600}", "'seconds': yeardays * 86400}"),
  ],
  'C13': [
+  (F, 'R-DEFSHAPE', 'camxfiles/one3d/Memmap.py', "            rows = self.__memmap[[-1]].view('>i')[0] // 4 - 2\n            cols = 1", "            rows = 1\n            cols = self.__memmap[[-1]].view('>i')[0] // 4 - 2"),
   (F, 'R-FMTTABLE', 'camxfiles/uamiv/Read.py', 'grid_hdr_fmt = "ffiffffiiiiifff"', 'grid_hdr_fmt = "ffiffffiiiiiiff"'),
   (F, 'R-IDWORDS', 'camxfiles/temperature/Memmap.py', "[:, 1:3]", "[:, 1:4]"),
   (F, 'R-LAYERVAR', 'camxfiles/uamiv/Read.py', "return (spc - 1) * self.__layerrecords(self.nlayers + 1)", "return (spc - 1) * self.__layerrecords(self.nz + 1)"),
@@ -196,8 +198,8 @@ CATALOGUE['C11'] += [
   (F, 'R-KINDS', _IO, "            dk: not np.isscalar(dv) and not isinstance(dv, slice)\n            for dk, dv in dimslices.items()", "            dk: not isinstance(dv, (int, slice))\n            for dk, dv in dimslices.items()"),
   (S, None, _IO, "            dk: not np.isscalar(dv) and not isinstance(dv, slice)\n            for dk, dv in dimslices.items()", "            dk: not (np.isscalar(dv) or isinstance(dv, slice))\n            for dk, dv in dimslices.items()"),
   (F, 'R-LAYNORM', _IO, "            lidx = np.array(\n                np.arange(outf.VGLVLS.size - 1)[kwds['LAY']], ndmin=1\n            )", "            lidx = np.array(kwds['LAY'], ndmin=1)"),
-  (F, 'R-HMSENC', _IO, "                outf.TSTEP = int(\n                    (datetime.datetime(1900, 1, 1, 0) +\n                     dt[0]).strftime('%H%M%S'))", "                secs = int(dt[0].total_seconds())\n                outf.TSTEP = secs // 3600 * 10000 + secs % 3600 // 60 + secs % 60"),
-  (S, None, _IO, "                outf.TSTEP = int(\n                    (datetime.datetime(1900, 1, 1, 0) +\n                     dt[0]).strftime('%H%M%S'))", "                secs = int(dt[0].total_seconds())\n                outf.TSTEP = secs // 3600 * 10000 + secs % 3600 // 60 * 100 + secs % 60"),
+  (F, 'R-HMSENC', _IO, "                outf.TSTEP = _timedelta2tstep(dt[0])", "                secs = int(dt[0].total_seconds())\n                outf.TSTEP = secs // 3600 * 10000 + secs % 3600 // 60 + secs % 60"),
+  (S, None, _IO, "                outf.TSTEP = _timedelta2tstep(dt[0])", "                secs = int(dt[0].total_seconds())\n                outf.TSTEP = secs // 3600 * 10000 + secs % 3600 // 60 * 100 + secs % 60"),
 ]
 CATALOGUE['C13'] += [
   (F, 'R-RECPOS', 'camxfiles/uamiv/Read.py', "        nid = ntime // self.nspec // self.nlayers", "        nid = ntime // self.nspec"),
@@ -565,26 +567,26 @@ CATALOGUE['C08'] += [
 # ---- variants taken from committed seeded changes (one file, any number of hunks): the rule named here must fire on the patched text.
 # A seed whose hunks no longer match the tree is skipped (reported as such), never a failure.
 SEED_VARIANTS = {
- 'C01': [('C01-x2', 'R-EVALDIMS'), ('C01-x3', 'R-NEWLEN'), ('C01-y1', 'R-STALEVAR'), ('C01-y3', 'R-GUARDOBJ')],
- 'C02': [('C02-x3', 'R-FUZZYDIM'), ('C02-x2', 'R-ZIPAXIS'), ('C02-x1', 'R-FILLLOOK'), ('C02-y2', 'R-DTYPEFULL')],
- 'C03': [('C03-x2', 'R-FUZZYDIM'), ('C03-x3', 'R-CONVCALL'), ('C03-y2', 'R-EDGEORDER')],
- 'C04': [('C04-x1', 'R-MACONCAT'), ('C04-x3', 'R-UNLIM'), ('C04-y1', 'R-STACKDEFAULT')],
- 'C05': [('C05-x3', 'R-QMUT'), ('C05-y2', 'R-CLOSELOCAL')],
- 'C06': [('C06-x1', 'R-PASSONLY'), ('C06-x3', 'R-MASKDEFPARSE'), ('C06-y2', 'R-MASKTABLE'), ('C06-y3', 'R-COORDDECL')],
- 'C07': [('C07-x3', 'R-FILLZERO'), ('C07-x1', 'R-NCATTRAPI'), ('C07-y2', 'R-ATTRSKIP'), ('C07-y3', 'R-DATAWRITE')],
- 'C08': [('C09-x2', 'R-CARRY'), ('C08-x3', 'R-VARORDER'), ('C09-m3', 'R-ONESTEP'), ('C08-y1', 'R-STYLEFLAG'), ('C08-y2', 'R-SCALARVIEW'), ('C08-y3', 'R-SIZEDTEXT')],
+ 'C01': [('C01-x2', 'R-EVALDIMS'), ('C01-x3', 'R-NEWLEN'), ('C01-y1', 'R-STALEVAR'), ('C01-y3', 'R-GUARDOBJ'), ('C01-z1', 'R-ATTRLISTKIND'), ('C01-z3', 'R-NEWONLY')],
+ 'C02': [('C02-x3', 'R-FUZZYDIM'), ('C02-x2', 'R-ZIPAXIS'), ('C02-x1', 'R-FILLLOOK'), ('C02-y2', 'R-DTYPEFULL'), ('C02-z1', 'R-NONEGUARD'), ('C02-z2', 'R-ADVIDX'), ('C02-z3', 'R-NONEGUARD')],
+ 'C03': [('C03-x2', 'R-FUZZYDIM'), ('C03-x3', 'R-CONVCALL'), ('C03-y2', 'R-EDGEORDER'), ('C01-z2', 'R-KEEPDIMS'), ('C03-z1', 'R-TDSECONDS'), ('C03-z3', 'R-CONVCALL')],
+ 'C04': [('C04-x1', 'R-MACONCAT'), ('C04-x3', 'R-UNLIM'), ('C04-y1', 'R-STACKDEFAULT'), ('C04-z1', 'R-TIMEUNITS')],
+ 'C05': [('C05-x3', 'R-QMUT'), ('C05-y2', 'R-CLOSELOCAL'), ('C05-z1', 'R-QMUT'), ('C05-z3', 'R-QMUT')],
+ 'C06': [('C06-x1', 'R-PASSONLY'), ('C06-x3', 'R-MASKDEFPARSE'), ('C06-y2', 'R-MASKTABLE'), ('C06-y3', 'R-COORDDECL'), ('C06-z1', 'R-VALUESASIS'), ('C06-z3', 'R-SEQLEFT')],
+ 'C07': [('C07-x3', 'R-FILLZERO'), ('C07-x1', 'R-NCATTRAPI'), ('C07-y2', 'R-ATTRSKIP'), ('C07-y3', 'R-DATAWRITE'), ('C07-z1', 'R-DTYPEFULL')],
+ 'C08': [('C09-x2', 'R-CARRY'), ('C08-x3', 'R-VARORDER'), ('C09-m3', 'R-ONESTEP'), ('C08-y1', 'R-STYLEFLAG'), ('C08-y2', 'R-SCALARVIEW'), ('C08-y3', 'R-SIZEDTEXT'), ('C08-z2', 'R-YEAREND'), ('C08-z3', 'R-HDRCOUNT'), ('C09-z1', 'R-PERSTEP')],
  'C09': [('C09-y3', 'R-FRAME')],
- 'C10': [('C10-x1', 'R-STARTSYNC'), ('C10-x2', 'R-DIMRESET'), ('C10-y2', 'R-VARLISTWIDTH'), ('C10-y3', 'R-TFLAGUNLISTED')],
+ 'C10': [('C10-x1', 'R-STARTSYNC'), ('C10-x2', 'R-DIMRESET'), ('C10-y2', 'R-VARLISTWIDTH'), ('C10-y3', 'R-TFLAGUNLISTED'), ('C10-z1', 'R-COUNTATTR'), ('C10-z2', 'R-STARTSET'), ('C11-z3', 'R-FLAGPERTIME')],
  'C11': [('C11-x1', 'R-TIMESRC'), ('C12-x3', 'R-STEPSET')],
- 'C12': [('C12-x1', 'R-CALSRC'), ('C12-y1', 'R-TIMEPREC'), ('C12-y2', 'R-TIMESTORE'), ('C11-y1', 'R-HMSALL')],
- 'C13': [('C13-x1', 'R-TIMEORIGIN'), ('C13-x2', 'R-ONESHOT'), ('C13-x3', 'R-STEPTILE'), ('C13-y1', 'R-STEPID'), ('C13-y2', 'R-STEPCOUNT')],
- 'C14': [('C14-y1', 'R-FIRSTSTEP'), ('C14-y2', 'R-STRIDEFLAGS')],
- 'C15': [('C15-x2', 'R-NOSTATE'), ('C15-x3', 'R-ISMINEPURE'), ('C15-y2', 'R-ONEOWNER')],
- 'C16': [('C16-x1', 'R-BOUNDSBREAK'), ('C16-x2', 'R-QUERYDTYPE'), ('C16-x3', 'R-EDGEPAIR'), ('C16-y2', 'R-EXACT'), ('C16-y3', 'R-RANGECHECK'), ('C12-y3', 'R-CALSRC')],
- 'C17': [('C17-x1', 'R-NORMSAME'), ('C17-x2', 'R-SIGMADEF'), ('C17-x3', 'R-COORDSEL'), ('C17-y2', 'R-ATTRALIAS'), ('C17-y3', 'R-NOSHORTCUT')],
- 'C18': [('C18-x2', 'R-PIECEORDER'), ('C18-x3', 'R-REGALL'), ('C18-y1', 'R-REWINDCOPY'), ('C18-y2', 'R-WINDOW3'), ('C18-y3', 'R-COLTILE')],
- 'C19': [('C19-x2', 'R-MISSPARSE'), ('C19-x3', 'R-LINECOUNT'), ('C19-y1', 'R-ENCODING'), ('C19-y2', 'R-INDEPSRC'), ('C19-y3', 'R-FALSYDEFAULT')],
- 'C20': [('C20-x3', 'R-ARLWIDTH'), ('C20-y2', 'R-STAMPFMT'), ('C20-y3', 'R-KSUM')],
+ 'C12': [('C12-x1', 'R-CALSRC'), ('C12-y1', 'R-TIMEPREC'), ('C12-y2', 'R-TIMESTORE'), ('C11-y1', 'R-HMSALL'), ('C11-z1', 'R-HMSRADIX'), ('C12-z2', 'R-HMSRADIX')],
+ 'C13': [('C13-x1', 'R-TIMEORIGIN'), ('C13-x2', 'R-ONESHOT'), ('C13-x3', 'R-STEPTILE'), ('C13-y1', 'R-STEPID'), ('C13-y2', 'R-STEPCOUNT'), ('C13-z1', 'R-SCANSIBS'), ('C13-z2', 'R-SCANSIBS'), ('C13-z3', 'R-DEFSHAPE')],
+ 'C14': [('C14-y1', 'R-FIRSTSTEP'), ('C14-y2', 'R-STRIDEFLAGS'), ('C14-z1', 'R-PARTIALRAISE'), ('C14-z2', 'R-SCANEXACT'), ('C14-z3', 'R-NOHANDOVER')],
+ 'C15': [('C15-x2', 'R-NOSTATE'), ('C15-x3', 'R-ISMINEPURE'), ('C15-y2', 'R-ONEOWNER'), ('C15-z3', 'R-MODSTATE')],
+ 'C16': [('C16-x1', 'R-BOUNDSBREAK'), ('C16-x2', 'R-QUERYDTYPE'), ('C16-x3', 'R-EDGEPAIR'), ('C16-y2', 'R-EXACT'), ('C16-y3', 'R-RANGECHECK'), ('C12-y3', 'R-CALSRC'), ('C16-z1', 'R-RESBOTH'), ('C16-z2', 'R-EDGECLAMP'), ('C16-z3', 'R-TZDROP')],
+ 'C17': [('C17-x1', 'R-NORMSAME'), ('C17-x2', 'R-SIGMADEF'), ('C17-x3', 'R-COORDSEL'), ('C17-y2', 'R-ATTRALIAS'), ('C17-y3', 'R-NOSHORTCUT'), ('C17-z1', 'R-ARGORDER'), ('C17-z2', 'R-RESTYPE')],
+ 'C18': [('C18-x2', 'R-PIECEORDER'), ('C18-x3', 'R-REGALL'), ('C18-y1', 'R-REWINDCOPY'), ('C18-y2', 'R-WINDOW3'), ('C18-y3', 'R-COLTILE'), ('C18-z1', 'R-RESERVEDKEEP'), ('C18-z2', 'R-DIMPERBLOCK'), ('C18-z3', 'R-GROUPFIRST')],
+ 'C19': [('C19-x2', 'R-MISSPARSE'), ('C19-x3', 'R-LINECOUNT'), ('C19-y1', 'R-ENCODING'), ('C19-y2', 'R-INDEPSRC'), ('C19-y3', 'R-FALSYDEFAULT'), ('C19-z1', 'R-SAMEINDEX'), ('C19-z2', 'R-NAMESPLIT'), ('C19-z3', 'R-DATEDEFAULT')],
+ 'C20': [('C20-x3', 'R-ARLWIDTH'), ('C20-y2', 'R-STAMPFMT'), ('C20-y3', 'R-KSUM'), ('C20-z1', 'R-ABSMAX'), ('C20-z2', 'R-UNPACKPURE'), ('C20-z3', 'R-VGTXT')],
 }
 
 
